@@ -15,6 +15,7 @@ from . import codec
 from . import world as W
 
 CUR = None      # the scheduler of the execution in progress
+_FROZEN = False
 
 
 class Deadlock(Exception):
@@ -315,7 +316,11 @@ def execute(program, prefix, opcode=False, rng=None):
     # finalised inside a scheduled thread: its lines would be extra, unpredictable scheduling points.  Collect now, in this untraced
     # thread, and keep the collector off while the schedule runs.
     import gc
+    global _FROZEN
     gc.collect()
+    if not _FROZEN:
+        gc.freeze()          # everything that exists now is permanent: the per-execution collections only look at what executions create
+        _FROZEN = True
     gc.disable()
     try:
         for tid, ops in sorted(program['threads'].items()):
